@@ -285,7 +285,12 @@ def _bit_ranges(P, R, cls, rid):
             if not (isinstance(c, ast.Call) and isinstance(c.func, ast.Attribute) and norm(c.func.value) == "self" and c.func.attr in writers
                     and len(c.args) == 3):
                 continue
-            if f.qualname in spliced and all(isinstance(a, ast.Name) and a.id in f.params for a in c.args[1:]):
+            own = set(f.params)
+            for a_ in walk_local(f.node):
+                # … or the pieces of a parameter that bundles them: `low, high = index_range`
+                if isinstance(a_, ast.Assign) and len(a_.targets) == 1 and isinstance(a_.targets[0], ast.Tuple) and isinstance(a_.value, ast.Name) and a_.value.id in f.params:
+                    own |= {t_.id for t_ in a_.targets[0].elts if isinstance(t_, ast.Name)}
+            if f.qualname in spliced and all(isinstance(a, ast.Name) and a.id in own for a in c.args[1:]):
                 continue  # a private helper forwarding its own parameters: read in place at each of its call sites
             n += 1
             croots, _, _ = origins(c.args[0], at=c)
@@ -840,12 +845,15 @@ def check_c18(ctx, R):
                 return part(ra.value, ra, depth + 1)
             return None
         for c in walk_local(f.node):
-            if not (isinstance(c, ast.Call) and isinstance(c.func, ast.Attribute) and norm(c.func.value) == "self" and len(c.args) >= 2):
+            if not (isinstance(c, ast.Call) and isinstance(c.func, ast.Attribute) and norm(c.func.value) == "self"
+                    and (len(c.args) >= 2 or any(isinstance(a, ast.Tuple) and len(a.elts) == 2 for a in c.args))):
                 continue
             st = c
             while not isinstance(st, ast.stmt):
                 st = getattr(st, "_parent")
-            parts = [part(a, st) for a in c.args]
+            # (a pair handed over as one tuple argument `(name, index)` is the same two halves side by side)
+            flat = [x for a in c.args for x in (a.elts if isinstance(a, ast.Tuple) else [a])]
+            parts = [part(a, st) for a in flat]
             for k in range(len(parts) - 1):
                 p0, p1 = parts[k], parts[k + 1]
                 if p0 is None or p1 is None or p0[1] != 0 or p1[1] != 1:
@@ -854,11 +862,11 @@ def check_c18(ctx, R):
                     continue  # halves of different kinds of split
                 n8 += 1
                 if p0[0] is p1[0]:
-                    R.ok("B8", "%s: `%s`, `%s` are the two halves of one reference" % (f.qualname, norm(c.args[k]), norm(c.args[k + 1])), f.loc(c))
+                    R.ok("B8", "%s: `%s`, `%s` are the two halves of one reference" % (f.qualname, norm(flat[k]), norm(flat[k + 1])), f.loc(c))
                 else:
-                    R.bad("B8", "%s|%s(%s, %s)" % (f.key, c.func.attr, norm(c.args[k]), norm(c.args[k + 1])), f.loc(c),
+                    R.bad("B8", "%s|%s(%s, %s)" % (f.key, c.func.attr, norm(flat[k]), norm(flat[k + 1])), f.loc(c),
                           "%s passes the name of one bit reference (`%s`, from `%s`) together with the index of another (`%s`, from `%s`): the bit that is "
-                          "connected is not the one the text names" % (f.qualname, norm(c.args[k]), short(p0[0].value, 40), norm(c.args[k + 1]), short(p1[0].value, 40)))
+                          "connected is not the one the text names" % (f.qualname, norm(flat[k]), short(p0[0].value, 40), norm(flat[k + 1]), short(p1[0].value, 40)))
     R.count("name/index argument pairs (B8)", n8)
     R.floor("name/index argument pairs (B8)", 4)
 
